@@ -574,6 +574,146 @@ theorem model_schurSolve_solves_full (req : EqReq) (eqs : List EqLayout) (vars :
 example : schurSolve [[3, 1], [2, 2]] [5, 4] 2 [0] [1] [0] [1] = some [3 / 2, 1 / 2] := by
   decide +kernel
 
+/-! ### histories of calls on one instance -/
+
+/-- decidable input condition on one call: a split names no variable twice -/
+def opOK (vars : List Var) : MOp → Prop
+  | .split _ items _ => ((parseVars (varBlocks 0 0 vars) items).map (·.idx)).Nodup
+  | _ => True
+
+/-- invariant of the instance: whatever is stored was assembled, by the model's `assembleSplit`, from the
+    ghost system `sysAt` with row / column lists that are partitions -/
+def StoredInv (eqs : List EqLayout) (vars : List Var) (st : MState) : Prop :=
+  ∀ s S rhs, st.stored = some (some s) → st.last = some (S, rhs) →
+    ∃ prows srows, (prows ++ srows).Perm (List.range (totalRows eqs)) ∧
+      (s.pcols ++ s.scols).Perm (List.range (totalDofs vars)) ∧
+      assembleSplit st.sysAt.1 st.sysAt.2 (totalDofs vars) prows srows s.pcols s.scols
+        = some ⟨S, rhs, s⟩
+
+theorem splitLists_ok (eqs : List EqLayout) (vars : List Var) (req : EqReq) (items : List VarItem)
+    (a b c d : List Nat) (h : splitLists eqs vars req items = .ok (a, b, c, d)) :
+    a = primRows req 0 0 eqs ∧ b = secRows req eqs ∧
+      c = primCols (parseVars (varBlocks 0 0 vars) items) ∧
+      d = secCols (varBlocks 0 0 vars) (parseVars (varBlocks 0 0 vars) items) := by
+  unfold splitLists at h
+  iterate 7 (split at h; · simp at h)
+  simp only [Except.ok.injEq, Prod.mk.injEq] at h
+  obtain ⟨h1, h2, h3, h4⟩ := h
+  exact ⟨h1.symm, h2.symm, h3.symm, h4.symm⟩
+
+theorem assembleSplit_cols (J : Mat) (r : Vec) (n : Nat) (prows srows pcols scols : List Nat)
+    (sp : SplitResult) (h : assembleSplit J r n prows srows pcols scols = some sp) :
+    sp.stored.pcols = pcols ∧ sp.stored.scols = scols := by
+  unfold assembleSplit at h
+  split at h
+  · cases h
+  simp only at h
+  split at h
+  · cases h
+  simp only [Option.some.injEq] at h
+  subst h
+  exact ⟨rfl, rfl⟩
+
+theorem storedInv_step (eqs : List EqLayout) (vars : List Var) (st : MState) (op : MOp)
+    (hinv : StoredInv eqs vars st) (hop : opOK vars op) :
+    StoredInv eqs vars (mstep eqs vars st op).1 := by
+  cases op with
+  | setSystem J r => exact hinv
+  | expandSolve =>
+    simp only [mstep]
+    repeat' split
+    all_goals exact hinv
+  | expand x =>
+    simp only [mstep]
+    repeat' split
+    all_goals exact hinv
+  | split req items sys =>
+    simp only [mstep]
+    split
+    · exact hinv
+    · rename_i prows srows pcols scols hl
+      obtain ⟨rfl, rfl, rfl, rfl⟩ := splitLists_ok eqs vars req items _ _ _ _ hl
+      split
+      · intro s S rhs h1 _
+        simp at h1
+      · rename_i sp hsp
+        intro s S rhs h1 h2
+        simp only [Option.some.injEq] at h1 h2
+        obtain ⟨hc1, hc2⟩ := assembleSplit_cols _ _ _ _ _ _ _ sp hsp
+        subst h1
+        refine ⟨primRows req 0 0 eqs, secRows req eqs, row_split_is_partition req eqs, ?_, ?_⟩
+        · rw [hc1, hc2]; exact col_split_is_partition vars items hop
+        · simp only
+          rw [hc1, hc2, hsp]
+          cases sp
+          simp only [Prod.mk.injEq] at h2
+          obtain ⟨rfl, rfl⟩ := h2
+          rfl
+
+theorem storedInv_run (eqs : List EqLayout) (vars : List Var) (ops : List MOp) (st : MState)
+    (hinv : StoredInv eqs vars st) (hok : ∀ op ∈ ops, opOK vars op) :
+    StoredInv eqs vars (mrun eqs vars st ops) := by
+  induction ops generalizing st with
+  | nil => exact hinv
+  | cons op ops ih =>
+    exact ih _ (storedInv_step eqs vars st op hinv (hok op List.mem_cons_self))
+      (fun o ho => hok o (List.mem_cons_of_mem _ ho))
+
+/-- `history_expand_solves`: for EVERY history of calls on one instance (new iterates, splits of any
+    kind with or without `state` argument, failing splits, expansions), whatever "solve the reduced
+    system of the last successful assembly and expand" answers solves the full system that assembly
+    was made from — the stored Schur data is never mixed with another state or another split. -/
+theorem history_expand_solves (eqs : List EqLayout) (vars : List Var) (ops : List MOp)
+    (hok : ∀ op ∈ ops, opOK vars op) (X : Vec)
+    (h : (mstep eqs vars (mrun eqs vars MState.init ops) .expandSolve).2 = .vec X) :
+    toM (totalRows eqs) (totalDofs vars) (mrun eqs vars MState.init ops).sysAt.1
+        *ᵥ toV (totalDofs vars) X
+      = toV (totalRows eqs) (mrun eqs vars MState.init ops).sysAt.2 := by
+  have hinv : StoredInv eqs vars (mrun eqs vars MState.init ops) :=
+    storedInv_run eqs vars ops _ (by intro s S rhs h1 _; simp [MState.init] at h1) hok
+  generalize mrun eqs vars MState.init ops = st at *
+  simp only [mstep] at h
+  split at h
+  all_goals try (simp at h)
+  rename_i s S rhs hs hl
+  split at h
+  · simp at h
+  rename_i xp hxp
+  simp only [MOut.vec.injEq] at h
+  subst h
+  obtain ⟨prows, srows, hrow, hcol, hasm⟩ := hinv s S rhs hs hl
+  apply schurSolve_solves_full _ _ _ _ prows srows s.pcols s.scols _ hrow hcol
+  unfold schurSolve
+  rw [hasm]
+  simp only
+  rw [hxp]
+
+/-- error branches: a failing `assemble_schur_complement_system` changes nothing -/
+theorem failed_split_keeps_state (eqs : List EqLayout) (vars : List Var) (st : MState)
+    (req : EqReq) (items : List VarItem) (sys : Option (Mat × Vec)) (e : SplitErr)
+    (h : (mstep eqs vars st (.split req items sys)).2 = .splitErr e) :
+    (mstep eqs vars st (.split req items sys)).1 = st := by
+  simp only [mstep] at h ⊢
+  split
+  · rfl
+  · rename_i hl
+    simp only [hl] at h
+    split at h <;> simp at h
+
+/-- non-vacuity: assemble (e0; v0) on `[[3,1],[2,2]] x = (5,4)`, then a failing request (unknown
+    equation), then a new iterate with another system: solve-and-expand still answers the solution
+    of the system the stored data was assembled from. -/
+example :
+    let eqs : List EqLayout := [[(0, 1)], [(0, 1)]]
+    let vars : List Var := [⟨0, 0, 1⟩, ⟨1, 0, 1⟩]
+    let ops : List MOp := [.setSystem [[3, 1], [2, 2]] [5, 4], .split (.names [0]) [⟨0, none⟩] none,
+      .split (.names [7]) [⟨0, none⟩] none, .setSystem [[1, 0], [0, 1]] [0, 0]]
+    (mstep eqs vars (mrun eqs vars MState.init ops) .expandSolve).2 = .vec [3 / 2, 1 / 2] ∧
+      (mrun eqs vars MState.init ops).sysAt = ([[3, 1], [2, 2]], [5, 4]) ∧
+      (mstep eqs vars (mrun eqs vars MState.init ops) (.split (.names [7]) [⟨0, none⟩] none)).2
+        = .splitErr .valueError := by
+  decide +kernel
+
 /-! ### non-vacuity of part (b)
 
 Three equations: `e0` on grids 0,1 (2 + 3 rows), `e1` on grid 0 (2 rows), `e2` on grids 1,2 (3 + 1
